@@ -87,7 +87,7 @@ EXPECT_ON_BLOCK = {
     # field: (canonical value, loop depth, required guard substrings, forbidden extra guards?)
     'n_valid_blocks': ('(self.n_valid_blocks + 1)', 0, []),
     'n_tx': ('(self.n_tx + a2.tx_count.value)', 0, []),
-    'n_tx_total_fee': ('(self.n_tx_total_fee + unwrap_or_default(checked_sub(%s.value.outputs[0].out.value, get_base_reward(a3))))' % TXS, 1,
+    'n_tx_total_fee': ('(self.n_tx_total_fee + saturating_sub(%s.value.outputs[0].out.value, get_base_reward(a3)))' % TXS, 1,
                        ['is_coinbase(%s.value)' % TXS]),
     'n_tx_inputs': ('(self.n_tx_inputs + %s.value.in_count.value)' % TXS, 1, []),
     'n_tx_outputs': ('(self.n_tx_outputs + %s.value.out_count.value)' % TXS, 1, []),
@@ -133,7 +133,7 @@ def rule_levels(ctx):
               for cs in ob.calls if mir.method_name(cs.name) == 'push']
     exp_push = {
         'self.block_sizes': ('a2.size', 0, [], 'levels'),
-        'self.t_between_blocks': ('unwrap_or_default(checked_sub(a2.header.value.timestamp, self.last_timestamp))', 0,
+        'self.t_between_blocks': ('saturating_sub(a2.header.value.timestamp, self.last_timestamp)', 0,
                                   ['0 < self.last_timestamp'], 'time'),
     }
     got = {}
